@@ -369,6 +369,8 @@ def default_of(I, st, ty):
         return ('str', I.lit_str(st, ''))
     if ty and ty['k'] == 'adt' and ty['path'] == OPTION:
         return none()
+    if ty and ty['k'] == 'adt' and ty['path'] == 'std::string::String':
+        return new_string_obj(I, st, I.lit_str(st, ''))          # String::default() is the empty string
     return I.top(st, ty, 'default') if ty else ('top', None)
 
 
@@ -1337,6 +1339,59 @@ def m_iter_skip_take(I, st, args, dty, site):
     return [(st, ('it', 'unk', ity, None, None, ('atmost', bound)) if bound is not None else ('it', 'unk', ity, None))]
 
 
+@model_if(lambda n: n.startswith('<') and ' as std::ops::' in n and n.rsplit('::', 1)[1] in ('add', 'sub', 'mul', 'div', 'rem')
+          and n.split(' as std::ops::')[1].split('<')[0] in ('Add', 'Sub', 'Mul', 'Div', 'Rem'))
+def m_ops_on_refs(I, st, args, dty, site):
+    """`a * &b`, `&a + &b`, ... on integers: the operator of the values (std forwards the reference impls), overflow checked as in the crate's own code"""
+    a, b = args[0], args[1]
+    for _ in range(2):
+        if a is not None and a[0] == 'r':
+            a = deref(I, st, a)
+        if b is not None and b[0] == 'r':
+            b = deref(I, st, b)
+    if not (_intarg(a) and _intarg(b)) or dty is None or not tyname(dty):
+        return None
+    op = {'add': 'Add', 'sub': 'Sub', 'mul': 'Mul', 'div': 'Div', 'rem': 'Rem'}[site['callee'].rsplit('::', 1)[1]]
+    if op in ('Div', 'Rem'):
+        bl, bh = D.get_iv(st, b[1])
+        o = site_obl(I, site, 'ARITH', 'div0')
+        I.record(o, not (bl <= 0 <= bh), st, f'divisor in [{bl}, {bh}]')
+        if bl <= 0 <= bh:
+            if bl == 0 and bh > 0:
+                D.set_iv(st, b[1], 1, bh)
+            elif bh == 0 and bl < 0:
+                D.set_iv(st, b[1], bl, -1)
+    r = I.binop(st, op, a, b, dty, None, None)
+    if r[0] != 'i':
+        return [(st, r)]
+    lo, hi = D.get_iv(st, r[1])
+    tr = range_of_name(tyname(dty))
+    if op in ('Add', 'Sub', 'Mul'):
+        o = site_obl(I, site, 'ARITH', 'overflow:' + op)
+        I.record(o, tr[0] <= lo and hi <= tr[1], st, f'result in [{lo}, {hi}] but type range is [{tr[0]}, {tr[1]}]')
+        D.set_iv(st, r[1], max(lo, tr[0]), min(hi, tr[1]))
+    return [(st, r)]
+
+
+@model('std::iter::Iterator::sum', 'std::iter::Iterator::product')
+def m_iter_sum(I, st, args, dty, site):
+    it = as_iter(I, st, args[0])
+    if it is not None and it[0] == 'it' and it[1] == 'seq' and dty is not None and tyname(dty) and all(_intarg(e) for e in it[2][it[3]:]):
+        # the sum of a known short sequence, term by term in the result type (overflow is an obligation of that addition)
+        which = site['callee'].rsplit('::', 1)[1]
+        acc = const_int(0 if which == 'sum' else 1, tyname(dty))
+        for e in it[2][it[3]:]:
+            acc = I.binop(st, 'Add' if which == 'sum' else 'Mul', acc, ('i', e[1], tyname(dty)), dty, None, None)
+            if acc[0] != 'i':
+                return [(st, I.top(st, dty, which))]
+        lo, hi = D.get_iv(st, acc[1])
+        tr = range_of_name(tyname(dty))
+        o = site_obl(I, site, 'ARITH', 'overflow:' + which)
+        I.record(o, tr[0] <= lo and hi <= tr[1], st, f'{which} in [{lo}, {hi}] but type range is [{tr[0]}, {tr[1]}]')
+        return [(st, acc)]
+    return [(st, I.top(st, dty, 'sum') if dty is not None else ('top', None))]
+
+
 @model('std::iter::once')
 def m_iter_once(I, st, args, dty, site):
     return [(st, ('it', 'seq', (args[0],), 0, False))]
@@ -1604,6 +1659,12 @@ def m_iter_search(I, st, args, dty, site):
     ref, clo = args[0], args[1]
     it = deref(I, st, ref)
     which0 = site['callee'].rsplit('::', 1)[1]
+    if it is not None and it[0] == 's' and it[1] in (RANGE, RANGE_INC) and all(_intarg(x) for x in it[2][:2]):
+        (l1, h1), (l2, h2) = D.get_iv(st, it[2][0][1]), D.get_iv(st, it[2][1][1])
+        exhausted = len(it[2]) > 2 and it[2][2][0] == 'i' and D.get_iv(st, it[2][2][1]) != (0, 0)
+        if l1 == h1 and l2 == h2 and not exhausted and 0 <= (l2 - l1) <= 12:
+            last = int(l2) if it[1] == RANGE_INC else int(l2) - 1
+            it = ('it', 'seq', tuple(const_int(k, it[2][0][2]) for k in range(int(l1), last + 1)), 0, False)
     if it is not None and it[0] == 'it' and it[1] == 'seq' and len(it[2]) - it[3] <= 12 and which0 in ('all', 'any', 'find', 'position'):
         # a known short sequence: the closure is evaluated element by element, in order, until it decides
         elems, byref = it[2][it[3]:], it[4]
@@ -3181,6 +3242,50 @@ def m_from_utf8(I, st, args, dty, site):
     if a[0] == 'slice' and a[1].get('ascii'):
         return [(s1, ok(('str', sv)))]
     return [(s1, ok(('str', sv))), (s2, err(e))]
+
+
+@model('<std::string::String as std::convert::From<char>>::from')
+def m_string_from_char(I, st, args, dty, site):
+    c = args[0]
+    if _intarg(c):
+        lo, hi = D.get_iv(st, c[1])
+        if lo == hi:
+            return [(st, new_string_obj(I, st, I.lit_str(st, chr(int(lo)))))]
+        sv = I.fresh_str(st, 'char', 1, 4 if hi > 127 else 1)
+        sv.ascii = True if hi <= 127 else None
+        return [(st, new_string_obj(I, st, sv))]
+    return [(st, new_string_obj(I, st, I.fresh_str(st, 'char', 1, 4)))]
+
+
+@model_if(lambda n: n.startswith('core::bool::<impl bool>::then'))
+def m_bool_then(I, st, args, dty, site):
+    b, x = args[0], args[1]
+    if not _intarg(b):
+        return None
+    lazy = site['callee'].endswith('::then')
+    outs = []
+    lo, hi = D.get_iv(st, b[1])
+    for val in (0, 1):
+        if not (lo <= val <= hi):
+            continue
+        s2 = st.clone()
+        if not D.set_iv(s2, b[1], val, val):
+            continue
+        t_ = D.TERM.get(b[1])
+        if t_ is not None and t_[0] in D.NEG and isinstance(t_[1], int) and isinstance(t_[2], int):
+            if not D.refine_cmp(s2, t_[0] if val else D.NEG[t_[0]], t_[1], t_[2]):
+                continue
+        if not val:
+            outs.append((s2, none()))
+        elif lazy:
+            r = I.call_closure(s2, x, [], site)
+            if r is None:
+                outs.append((s2, some(I.top(s2, item_ty_of(dty), 'then') if item_ty_of(dty) else ('top', None))))
+            else:
+                outs.extend((s3, some(v)) for s3, v in r)
+        else:
+            outs.append((s2, some(x)))
+    return outs
 
 
 @model('<std::string::String as std::convert::From<&str>>::from', '<str as std::borrow::ToOwned>::to_owned', 'std::borrow::ToOwned::to_owned',
